@@ -4,7 +4,8 @@
 # recorded as catching it) must still report it.   VERIF_SEED=n tools/recheck_seeded.sh [lanes]
 LANES=${1:-4}
 cd /verif
-ids=$(ls seeded | grep -E '^C[0-9]+-' )
+# RECHECK_FILTER=<regex> restricts the ids (e.g. '^C0[35]-'); the result file then gets a -partial suffix
+ids=$(ls seeded | grep -E '^C[0-9]+-' | grep -E "${RECHECK_FILTER:-.}")
 run_lane() {
   for id in "$@"; do
     p=$(python3 -c "
@@ -20,7 +21,7 @@ i=0; declare -a L
 for id in $ids; do L[$((i%LANES))]+=" $id"; i=$((i+1)); done
 for k in $(seq 0 $((LANES-1))); do run_lane ${L[$k]} > /verif/work/recheck-$k.log 2>&1 & done
 wait
-OUT=/verif/seeded/RECHECK-seed${VERIF_SEED:-0}.txt
+OUT=/verif/seeded/RECHECK-seed${VERIF_SEED:-0}${RECHECK_FILTER:+-partial}.txt
 cat /verif/work/recheck-*.log | sort > $OUT
 rm -f /verif/work/recheck-*.log
 echo "rechecked $(wc -l < $OUT) with VERIF_SEED=${VERIF_SEED:-0}; not caught: $(grep -vc 'rc=1' $OUT)"
